@@ -5,6 +5,7 @@
 From Coq Require Import List NArith.
 From Pika Require Import Base.Conc Model.IndexQueue Proofs.IndexQueueProofs.
 From Pika Require Import Model.DequeSpec Model.Deque Model.DequeWitness Proofs.DequeProofs.
+From Pika Require Import Model.DequeExplore Proofs.DequeBoundedProofs.
 From Pika Require Import Gen.GenBackends Model.Backends Proofs.BackendsProofs.
 Import ListNotations.
 Local Open Scope N_scope.
@@ -143,6 +144,23 @@ Theorem C17_deque_free_entered_only_by_cas : forall o t g l s a,
                  atag (anc (fst (dq_tstep o t g l))) = atag (anc g) + 1.
 Proof. exact free_entered_only_by_cas. Qed.
 Print Assumptions C17_deque_free_entered_only_by_cas.
+
+(* 2.4 Conservation under the guard "no link CAS hits a freed / re-allocated node" — PARTIAL.
+   Full statement (NOT proved): for every pool size, all programs and every schedule, if
+   [aba] is still false then no value has been delivered more often than it was pushed, no
+   thread dereferenced nullptr, and whenever all threads are done the pushed values are exactly
+   the popped ones plus the chain (the log is a legal history of the list deque).
+   Proved: exactly that, for EVERY schedule (any length, any thread ids), but only for the
+   finite list [guarded_configs] of start configurations (2-3 threads with one operation each on
+   contents with a stale link / one element / empty deque / recycled node) — by an explorer of all
+   interleavings whose soundness for arbitrary schedules is proved in general
+   (Proofs/DequeBoundedProofs.explore_sound) and which is evaluated by vm_compute. *)
+Theorem C17_deque_linearizable_guarded_partial : forall k init progs sched,
+  In (k, init, progs) guarded_configs ->
+  let c := run dq_tstep sched (start_state k init, lfun (start_locals progs)) in
+  exists ls', (forall t, snd c t = lget ls' t) /\ length ls' = length progs /\ conserved (fst c) ls' = true.
+Proof. exact deque_linearizable_guarded_partial_lemma. Qed.
+Print Assumptions C17_deque_linearizable_guarded_partial.
 
 (* ======================================================================================
    Part 3: the queue back-ends (lockfree_queue_backends.hpp); the table push_end / pop_end is
